@@ -12,7 +12,7 @@ Close(S) == S \cup (IF "i1.val" \in S THEN {"i1.name"} ELSE {}) \cup (IF "i2.val
               \cup (IF S \cap {"p2.weight", "p2.zone", "p2.app"} # {} THEN {"p2.zone", "p2.app"} ELSE {})
 Fun(S) == [l \in S |-> ValOf(l)]
 NStates == 12
-IntLeaves == {"pl.a", "pl.ab", "i1.val", "s.host"}
+IntLeaves == {"pl.a", "pl.ab", "i1.val", "i2.val", "s.host", "s.hostname"}
 Owners == {"A", "B"}
 PrioOfO(o) == IF o = "A" THEN 5 ELSE 7
 RandIntended == UNION {{[o |-> o, p |-> PrioOfO(o), l |-> l, v |-> RandomElement(UVals[l])] : l \in RandomElement(SUBSET IntLeaves)} : o \in Owners}
@@ -24,6 +24,11 @@ MCRequests ==
     \cup {Req("MAIN", "STATE", enc, {n}, "", 0) : enc \in {"STRING", "JSON"}, n \in {"/", "sys", "item[k1]", "sys/uptime"}}
     \cup {Req("MAIN", "CONFIG", enc, {n, m}, "", 0) : enc \in {"STRING", "JSON_IETF"}, n \in {"plain/a", "item[k1]", "sys/host"}, m \in {"plain/sub", "item[k2]/val", "ch/alpha", "pair[z1]"}}
     \cup {Req("INTENDED", "CONFIG", enc, {n}, o, IF o = "" THEN 0 ELSE PrioOfO(o)) : enc \in {"STRING", "PROTO"}, n \in {"/", "plain", "plain/a", "item[k1]/val", "sys/host"}, o \in {"", "A", "B"}}
+    \* several exact leaf paths on the intended store, among them prefix related names and keys
+    \cup {Req("INTENDED", "CONFIG", enc, P, o, IF o = "" THEN 0 ELSE PrioOfO(o)) : enc \in Encodings, o \in {"", "A"},
+               P \in {{"plain/a", "plain/ab"}, {"sys/host", "sys/hostname"}, {"item[k1]/val", "item[k2]/val"}, {"plain/a", "sys/host", "item[k1]/val"}}}
+    \cup {Req("MAIN", "CONFIG", enc, P, "", 0) : enc \in Encodings,
+               P \in {{"plain/a", "plain/ab"}, {"sys/host", "sys/hostname"}, {"item[k1]/val", "item[k2]/val"}, {"item[k1]", "item[k2]/val"}}}
     \cup {Req("MAIN", "CONFIG", "BOGUS", {"/"}, "", 0), Req("INTENDED", "STATE", "STRING", {"plain"}, "", 0)}
     \cup {Req("MAIN", "CONFIG", enc, {"plain/a", "?unknown"}, "", 0) : enc \in Encodings}
 
